@@ -348,7 +348,7 @@ func checkDirectWire(l *simnet.Link, codec *RefCodec, cp ClientParams, w *SrvWor
 			if len(r.Body) == 0 || len(r.Body) > 1<<14+256 {
 				return fmt.Sprintf("tls:record-length|%s record %d has length %d (must be 1..%d)", dir, i, len(r.Body), 1<<14+256)
 			}
-			if decode && (i > from || dir == "client") {
+			if decode && codec != nil && (i > from || dir == "client") {
 				if _, err := codec.Decode(r.Body); err != nil {
 					return fmt.Sprintf("agreement:encryption-method|%s record %d does not decode under the session key and the configured encryption method %q: %v", dir, i, cp.Encryption, err)
 				}
